@@ -11,8 +11,9 @@ import (
 // program area, registers and the string are symbolic.
 
 type vConsole struct {
-	n   int
-	buf [64]uint8
+	n    int
+	buf  [64]uint8
+	last uint8
 }
 
 func (c *vConsole) Write(p []byte) (int, error) {
@@ -21,6 +22,7 @@ func (c *vConsole) Write(p []byte) (int, error) {
 			c.buf[c.n] = b
 		}
 		c.n++
+		c.last = b
 	}
 	return len(p), nil
 }
@@ -240,6 +242,7 @@ func (c *vConsoleB) WriteByte(b byte) error {
 		c.buf[c.n] = b
 	}
 	c.n++
+	c.last = b
 	return nil
 }
 
@@ -270,6 +273,22 @@ func VC18Reconfig(kinds int) {
 	io.Out(0, v3)
 	vAssert("second-writer-gets-the-rest", vAnd(b.n == 2, vAnd(b.buf[0] == v2, b.buf[1] == v3)))
 	vAssert("first-writer-gets-nothing-more", a.n == 1)
+	vAssert("no-warning", vWarnCount() == 0)
+}
+
+// volume: 70 000 console bytes in a row all reach the writer, in order (longer
+// runs are outside the bound)
+func VC18Volume() {
+	_, io, cons := vMachine()
+	v, w := vU8("v"), vU8("w")
+	const n = 70000
+	for i := 0; i < n-1; i++ {
+		io.Out(0, v)
+	}
+	io.Out(0, w)
+	vAssert("all-bytes-arrive", cons.n == n)
+	vAssert("first", cons.buf[0] == v)
+	vAssert("last-is-last", cons.last == w)
 	vAssert("no-warning", vWarnCount() == 0)
 }
 
